@@ -8,6 +8,13 @@ PY = "/venv/bin/python"
 
 # id -> (technique, level text, level note, design ref)
 CHECKS = {
+    "C13": ("Hypothesis RuleBasedStateMachine (call / mutate returned object / re-call / flush cache) against references computed by fresh interpreters with different hash seeds and call orders",
+            "Histories of API calls interleaved with caller-side mutations of everything the library returned and with cache flushes are generated "
+            "and shrunk as one value; after every call the canonical result must equal what 8-16 fresh interpreters (different PYTHONHASHSEED, "
+            "different call orders) agree on, inputs are snapshotted before/after each call, and every call whose result was mutated is re-issued "
+            "at the end of the history.",
+            "Trusted: canonicalisation of results to JSON; cold cache = cleared module-level cache dicts; finite catalogue (~450 calls), histories up to 30/60 steps.",
+            "DESIGN.md §4 C13"),
     "C10": ("Hypothesis states (Clifford+T, continuous rotations, GHZ/W templates, mixtures by injection) per configuration; exact outcome statistics from a dense simulator fed through a duck-typed result; oracle Tr(rho P) for all 4^n Paulis",
             "The tomography circuits the library returns are simulated exactly and the fitter's 4^n expectation values and density matrix are compared "
             "with dense algebra (1e-9). One Hypothesis search per configuration (all 20 in every run); the operator-space rank of the sampled states is "
